@@ -37,10 +37,10 @@ var (
 )
 
 type pcEnv struct {
-	n                                   *vn.Node
+	n                                      *vn.Node
 	abiStaking, abiDist, abiICS20, abiBank abi.ABI
-	deployer                            vn.Account
-	feeColl                             sdk.AccAddress
+	deployer                               vn.Account
+	feeColl                                sdk.AccAddress
 }
 
 func mustABI(a abi.ABI, err error) abi.ABI {
